@@ -1,7 +1,7 @@
 (** C17 — a saved assembly (.uasm) runs exactly like the program it was compiled from.
     Property theorems only; every proof is [exact lemma]. *)
 From Coq Require Import List NArith Bool.
-From UV Require Import Base.Value Model.Uasm Model.UasmValue Proofs.Uasm Proofs.UasmValue.
+From UV Require Import Base.Value Model.Uasm Model.UasmValue Model.UasmPlain Proofs.Uasm Proofs.UasmValue Proofs.UasmValueRt.
 Import ListNotations.
 
 (** Framing of the current reader (whole-line section markers, /repo 0f91cb1): reading back what
@@ -23,7 +23,21 @@ Theorem C17_framing_refuted_pre : exists a, sections_wf a = true /\ written_shap
   from_uasm_pre (to_uasm a) <> inr (reread a) /\ from_uasm_pre (to_uasm a) <> inr a.
 Proof. exact framing_refuted_pre. Qed.
 
-(** Values as JSON: the current (un)tagging is ambiguous.  Records of the defects: *)
+(** Values as JSON (ArrayRep / F64Rep / Value untagged enums, serde's first-variant-that-parses
+    rule): a value meeting [plain_json] reads back as itself - [norm v]: same shape, same element
+    class, same data up to the storage of empty number arrays and NaN payloads - at any depth ... *)
+Theorem C17_value_json_roundtrip_fuel : forall v, wf_shape v = true -> plain_json v = true ->
+  forall fuel, (vdepth v <= fuel)%nat -> of_json_fuel fuel (to_json v) = Some (MV (norm v) None None).
+Proof. exact value_json_roundtrip_fuel. Qed.
+Theorem C17_value_json_roundtrip : forall v, wf_shape v = true -> plain_json v = true -> (vdepth v <= 12)%nat ->
+  of_json (to_json v) = Some (MV (norm v) None None).
+Proof. exact value_json_roundtrip. Qed.
+Theorem C17_value_norm_shape : forall v, shape_of (norm v) = shape_of v /\ elem_class (norm v) = elem_class v /\
+  data_len (norm v) = data_len v.
+Proof. intros v. split; [apply norm_shape | split; [apply norm_class | apply norm_len]]. Qed.
+
+(** ... and the premises of [plain_json] are exactly where the current (un)tagging is ambiguous.
+    Records of the (open) defects: *)
 Theorem C17_value_json_refuted_string :
   exists v m', of_json (to_json v) = Some m' /\ mval_same m' (MV v None None) = false /\
                m' = MV (VNum [] [F_NAN_BITS]) None None.
@@ -41,7 +55,15 @@ Example C17_nonvacuous :
   sections_wf a = true /\ written_shape a = true /\ from_uasm (to_uasm a) = inr (reread a).
 Proof. vm_compute. repeat split; reflexivity. Qed.
 
+Example C17_nonvacuous_value :
+  let v := VBox [2%nat] [VChar [2%nat] [104;105]; VBox [1%nat;2%nat] [VNum [0%nat] []; VCplx [] [(4607182418800017408, 0)]]] in
+  wf_shape v = true /\ plain_json v = true /\ (vdepth v <= 12)%nat /\ of_json (to_json v) = Some (MV (norm v) None None).
+Proof. vm_compute. repeat split; try reflexivity. repeat constructor. Qed.
+
 Print Assumptions C17_framing_roundtrip.
+Print Assumptions C17_value_json_roundtrip_fuel.
+Print Assumptions C17_value_json_roundtrip.
+Print Assumptions C17_value_norm_shape.
 Print Assumptions C17_framing_roundtrip_pre.
 Print Assumptions C17_framing_refuted_pre.
 Print Assumptions C17_value_json_refuted_string.
